@@ -127,6 +127,9 @@ impl<T: Sync + Send + 'static> Worker<T> {
     }
 
     fn remove_in_flight_matches(&mut self) {
+        // the parallel iterator in `process_new_items` reports in-flight items
+        // in arbitrary order, the offset computation below needs ascending order
+        self.in_flight.sort_unstable();
         let mut off = 0;
         self.in_flight.retain(|&i| {
             let is_in_flight = self.items.get(i).is_none();
